@@ -11,8 +11,10 @@ package main
 //      ever catches up with the scan index.
 
 import (
+	"fmt"
 	"go/token"
 	"go/types"
+	"strings"
 
 	"golang.org/x/tools/go/ssa"
 )
@@ -168,10 +170,10 @@ var a4Allowed = map[string]string{
 
 func ruleA4Confine(r *Run, p *Prog) {
 	n, inAllowed := 0, 0
-	for _, f := range p.ModFns {
-		if pkgRel(f) != "internal/json" {
-			continue
-		}
+	// helpers private to their callers (e.g. a "flush the pending run" function) are judged inside
+	// the functions that call them: the allow-list names the audited entry points
+	audited := func(g *ssa.Function) bool { _, ok := a4Allowed[canonFn(g)]; return ok }
+	for _, f := range p.RootViews([]string{"internal/json"}, "keep-audited", audited) {
 		var d map[ssa.Value]bool
 		eachInstr(f, func(b *ssa.BasicBlock, i int, in ssa.Instruction) {
 			c, ok := in.(*ssa.Call)
@@ -192,7 +194,7 @@ func ruleA4Confine(r *Run, p *Prog) {
 				return
 			}
 			n++
-			if why, ok := a4Allowed[f.Name()]; ok {
+			if why, ok := a4Allowed[canonFn(viewRoot(f))]; ok {
 				inAllowed++
 				r.Ob("A4", FnName(f)+"/raw-append-allowed", p.Pos(c.Pos()), true, false, "raw append of caller text inside "+f.Name()+": "+why)
 				return
@@ -315,7 +317,8 @@ func tableLookupOf(v ssa.Value) (ssa.Value, *ssa.Global, bool) {
 }
 
 // safeByteCert: do the comparisons certify that byte b needs no escaping?
-//   JSON encoder: noEscapeTable[b] == true ;  decoder: 0x20 <= b <= 0x7e && b != '\\' && b != '"'
+//
+//	JSON encoder: noEscapeTable[b] == true ;  decoder: 0x20 <= b <= 0x7e && b != '\\' && b != '"'
 func safeByteCert(cs []Cmp, isB func(ssa.Value) bool, table *ssa.Global) bool {
 	if table != nil {
 		return hasCmp(cs, func(op token.Token, x, y ssa.Value) bool {
@@ -483,7 +486,11 @@ func ruleEscaperComplex(r *Run, p *Prog, rule string, g *ssa.Function, textIdx i
 		}
 		nCopies++
 		lo, _ := sl.Low.(*ssa.Phi)
-		okc := lo != nil && (sl.High == nil || sl.High == ssa.Value(iPhi))
+		hiLen := false
+		if lc, isC := sl.High.(*ssa.Call); isC && builtinName(&lc.Call) == "len" && lc.Call.Args[0] == ssa.Value(text) {
+			hiLen = true // text[start:len(text)] is text[start:]
+		}
+		okc := lo != nil && (sl.High == nil || hiLen || sl.High == ssa.Value(iPhi))
 		if lo != nil {
 			if startPhi == nil {
 				startPhi = lo
@@ -704,7 +711,10 @@ func ruleA4JSON(r *Run, p *Prog) {
 		if !r.Anchor(fast != nil, "A4", "json.Encoder."+pr[0]) || !r.Anchor(cx != nil, "A4", "json."+pr[1]) {
 			continue
 		}
-		ruleEscaperFast(r, p, "A4", fast, 2, table, cx)
+		cxOrig := cx
+		fast = p.View(fast, "keep-complex", func(g *ssa.Function) bool { return g == cxOrig })
+		cx = p.View(cx, "", nil)
+		ruleEscaperFast(r, p, "A4", fast, 2, table, cxOrig)
 		ruleEscaperComplex(r, p, "A4", cx, 1, table)
 	}
 	// the table itself: filled only by the init loop with the documented predicate (not evaluated; its
@@ -715,41 +725,104 @@ func ruleA4JSON(r *Run, p *Prog) {
 // ruleNoEscapeTableInit: the only stores into noEscapeTable are in the package initialiser and
 // store the predicate  i >= 0x20 && i != '\\' && i != '"'  for i in [0, 0x7e].
 func ruleNoEscapeTableInit(r *Run, p *Prog, table *ssa.Global) {
+	// The table's contents are derived by evaluating the stores into it over the constant index
+	// range of the initialiser loop (finite domain, see rule_eval.go) and compared with the
+	// predicate the escapers rely on: entry b is true exactly for 0x20 <= b <= 0x7e, b != '\\', b != '"'.
+	n := 256
+	if a, ok := derefType(table.Type()).Underlying().(*types.Array); ok {
+		n = int(a.Len())
+	}
+	entries := make([]bool, n)
 	stores := 0
-	okAll := true
+	undecided := ""
+	var pos token.Pos
 	for _, f := range p.ModFns {
 		if pkgRel(f) != "internal/json" {
 			continue
 		}
+		var sites []*ssa.Store
 		eachInstr(f, func(b *ssa.BasicBlock, i int, in ssa.Instruction) {
-			st, ok := in.(*ssa.Store)
-			if !ok {
-				return
+			if st, ok := in.(*ssa.Store); ok {
+				if ia, ok := st.Addr.(*ssa.IndexAddr); ok && ia.X == ssa.Value(table) {
+					sites = append(sites, st)
+				}
+				if st.Addr == ssa.Value(table) {
+					undecided = "the whole table is assigned in " + FnName(f)
+				}
 			}
-			ia, ok := st.Addr.(*ssa.IndexAddr)
-			if !ok || ia.X != ssa.Value(table) {
-				return
-			}
-			stores++
-			// value: phi of false / comparisons; check the necessary conditions of a `true` store
-			// structurally: the stored value is a phi whose true-capable edge is guarded by
-			// i >= 0x20, i != 92, i != 34 ; and the loop bound is i <= 0x7e
-			cs := necessaryCmps(f, st)
-			bound := hasCmp(cs, func(op token.Token, x, y ssa.Value) bool {
-				n, ok := constInt(y)
-				return ok && x == ia.Index && ((op == token.LEQ && n <= 0x7e) || (op == token.LSS && n <= 0x7f))
-			})
-			good := bound && storedPredicateOK(st.Val, ia.Index)
-			if !good {
-				okAll = false
-			}
-			r.Ob("A4", "json.noEscapeTable/init", p.Pos(st.Pos()), good, true, tern(good, "table entries are set only for i <= 0x7e to (i >= 0x20 && i != '\\\\' && i != '\"')", "noEscapeTable is filled with a predicate other than i<=0x7e && i>=0x20 && i!='\\\\' && i!='\"': some byte that needs escaping is marked safe"))
 		})
+		if len(sites) == 0 {
+			continue
+		}
+		if !(f.Name() == "init" || strings.HasPrefix(f.Name(), "init#")) || f.Parent() != nil {
+			undecided = "the table is written outside the package initialiser (in " + FnName(f) + ")"
+			pos = sites[0].Pos()
+			continue
+		}
+		for _, st := range sites {
+			stores++
+			pos = st.Pos()
+			record := func(e *miniEnv, s *ssa.Store) bool {
+				ia, ok := s.Addr.(*ssa.IndexAddr)
+				if !ok || ia.X != ssa.Value(table) {
+					_, isFA := s.Addr.(*ssa.FieldAddr)
+					_, isIA := s.Addr.(*ssa.IndexAddr)
+					return isFA || isIA || true // stores to other locations do not matter here
+				}
+				k, ok1 := e.eval(ia.Index, 0)
+				v, ok2 := e.eval(s.Val, 0)
+				if !ok1 || !ok2 || k < 0 || int(k) >= n {
+					return false
+				}
+				entries[k] = v != 0
+				return true
+			}
+			// inside a constant-range loop, or a straight-line store with a constant index
+			var hdr *ssa.BasicBlock
+			for _, b := range f.Blocks {
+				if isLoopHeader(b) && loopBlocks(b)[st.Block()] {
+					if hdr == nil || loopBlocks(hdr)[b] {
+						hdr = b
+					}
+				}
+			}
+			if hdr == nil {
+				e := &miniEnv{vals: map[ssa.Value]int64{}}
+				if !record(e, st) {
+					undecided = "a store into the table outside a loop has a non-constant index or value"
+				}
+				continue
+			}
+			idx, entry, values, ok := constRangeLoop(hdr)
+			if !ok {
+				undecided = "the initialiser loop is not `for i := c0; i <= c1; i++` over constants"
+				continue
+			}
+			for _, iv := range values {
+				e := &miniEnv{vals: map[ssa.Value]int64{idx: iv}}
+				if why := e.walkIteration(hdr, entry, func(s *ssa.Store) bool { return record(e, s) }); why != "" {
+					undecided = why
+					break
+				}
+			}
+		}
 	}
-	if stores != 1 {
-		r.Ob("A4", "json.noEscapeTable/stores", "-", false, true, itoa(stores)+" store sites into noEscapeTable (expected the single initialiser loop)")
+	if stores == 0 && undecided == "" {
+		undecided = "no initialising store into the table found"
 	}
-	_ = okAll
+	if undecided != "" {
+		r.Ob("A4", "json.noEscapeTable/init", p.Pos(pos), false, true, "the contents of the no-escape table cannot be determined: "+undecided)
+		return
+	}
+	var wrong []string
+	for b := 0; b < n; b++ {
+		want := b >= 0x20 && b <= 0x7e && b != '\\' && b != '"'
+		if entries[b] != want {
+			wrong = append(wrong, fmt.Sprintf("0x%02x", b))
+		}
+	}
+	ok := len(wrong) == 0
+	r.Ob("A4", "json.noEscapeTable/init", p.Pos(pos), ok, true, tern(ok, "table entry b is true exactly for 0x20 <= b <= 0x7e, b != '\\\\', b != '\"' (all "+itoa(n)+" entries evaluated from the initialiser)", "noEscapeTable is filled with a predicate other than i<=0x7e && i>=0x20 && i!='\\\\' && i!='\"': entries "+joinMax(wrong, 8)+" differ, so some byte that needs escaping is marked safe (or a safe one is escaped)"))
 }
 
 // storedPredicateOK: v is the SSA form of  i >= 0x20 && i != '\\' && i != '"'
